@@ -233,7 +233,20 @@ func addVirtualTableHelper(vTableMap map[string]struct{}, orgid int64) (bool, er
 	return true, nil
 }
 
+// IsNameSafeForPath reports whether a client-supplied name (index, alias, ...) can be used as ONE
+// path component: index names become directory names (final/<index>/...) and file names
+// (mappings/<index>.json, aliases/<index>.json).
+func IsNameSafeForPath(name string) bool {
+	if name == "" || name == "." || name == ".." {
+		return false
+	}
+	return !strings.ContainsAny(name, "/\\\x00")
+}
+
 func AddVirtualTable(tname *string, orgid int64) error {
+	if !IsNameSafeForPath(*tname) {
+		return fmt.Errorf("AddVirtualTable: invalid index name %q", *tname)
+	}
 	vTableMap := make(map[string]struct{})
 	vTableMap[*tname] = struct{}{}
 
@@ -307,6 +320,9 @@ func AddVirtualTableAndMapping(tname *string, mapping *string, orgid int64) erro
 }
 
 func AddMapping(tname *string, mapping *string, orgid int64) error {
+	if !IsNameSafeForPath(*tname) {
+		return fmt.Errorf("AddMapping: invalid index name %q", *tname)
+	}
 	var sb1 strings.Builder
 	sb1.WriteString(VTableMappingsDir)
 	if orgid != 0 {
@@ -446,6 +462,9 @@ func GetAliasesAsArray(indexName string, orgid int64) ([]string, error) {
 }
 
 func GetAliases(indexName string, orgid int64) (map[string]bool, error) {
+	if !IsNameSafeForPath(indexName) {
+		return map[string]bool{}, fmt.Errorf("GetAliases: invalid index name %q", indexName)
+	}
 	var sb1 strings.Builder
 	sb1.WriteString(VTableAliasesDir)
 	if orgid != 0 {
@@ -481,6 +500,9 @@ func GetAliases(indexName string, orgid int64) (map[string]bool, error) {
 }
 
 func writeAliasFile(indexName *string, allnames map[string]bool, orgid int64) error {
+	if !IsNameSafeForPath(*indexName) {
+		return fmt.Errorf("writeAliasFile: invalid index name %q", *indexName)
+	}
 	var sb1 strings.Builder
 	sb1.WriteString(VTableAliasesDir)
 	if orgid != 0 {
@@ -669,6 +691,9 @@ func RemoveAliases(indexName string, aliases []string, orgid int64) error {
 }
 
 func removeAliasFile(indexName *string, orgid int64) error {
+	if !IsNameSafeForPath(*indexName) {
+		return fmt.Errorf("removeAliasFile: invalid index name %q", *indexName)
+	}
 	var sb1 strings.Builder
 	sb1.WriteString(VTableAliasesDir)
 	if orgid != 0 {
